@@ -261,6 +261,11 @@ class Ctx:
         self.live_refs.append(r)
         if distinct:
             self.fresh_ids.add(r.get_id())
+            # a newly allocated object is not yet referenced from the heap fields listed for its type
+            for fld in self.world.fresh_excludes.get(pytype, ()):
+                x = z3.Const('x!alloc', Ref)
+                arr = self.harr(fld)
+                self.assumptions.append(z3.ForAll([x], z3.Select(arr, x) != r, patterns=[z3.Select(arr, x)]))
         return SRef(r, pytype)
 
     def strconst(self, s):
@@ -563,6 +568,7 @@ class World:
         self.decorated = {}         # cache: (class, method) -> SFunc (outermost wrapper)
         self.user_signal = None
         self.local_types = {}       # (function path, local name) -> pytype (sidecar typing of locals)
+        self.fresh_excludes = {}    # pytype -> heap fields that cannot yet point to a newly allocated object
         self.pytype_overrides = {}  # (owner pytype, field) -> pytype
         self.dynamic_attrs = {'*': {'state_name', 'state_fn', 'spied_on'}}
 
